@@ -505,6 +505,10 @@ func init() {
 						s.OK(key, p, "cutting loop: "+why)
 						continue
 					}
+					if ok, why := shrinkLoop(c, f, l); ok {
+						s.OK(key, p, "shrinking loop: "+why)
+						continue
+					}
 					if ok, why := cursorLoop(c, f, l); ok {
 						s.OK(key, p, "cursor loop: "+why)
 						continue
@@ -924,6 +928,83 @@ func cutLoop(c *Ctx, l *ssaLoop) (bool, string) {
 	return false, ""
 }
 
+// nonNegAt: a dominating test at b shows v ≥ 0 (v ≥ 0, v > -1, not v < 0, or v != -1 for a strings.Index* result).
+func nonNegAt(ff *fnFacts, b *ssa.BasicBlock, v ssa.Value) bool {
+	for _, fa := range ff.At(b) {
+		bo, isB := fa.Cond.(*ssa.BinOp)
+		if !isB || bo.X != v {
+			continue
+		}
+		k, isC := constInt(bo.Y)
+		if !isC {
+			continue
+		}
+		rel, okR := relOf(bo.Op, fa.Val)
+		if !okR {
+			continue
+		}
+		if (rel == token.GEQ && k >= 0) || (rel == token.GTR && k >= -1) {
+			return true
+		}
+		if rel == token.NEQ && k == -1 {
+			if call, isCall := v.(*ssa.Call); isCall {
+				if cl := call.Common().StaticCallee(); cl != nil && strings.HasPrefix(cl.String(), "strings.Index") {
+					return true
+				}
+			}
+		}
+	}
+	return false
+}
+
+// shrinkLoop: a string or slice carried round the loop is, on every way round, a reslice x[i+k:] of itself with k ≥ 1
+// and i known to be non-negative there (`rest = rest[dot+1:]` after `dot >= 0`): it loses at least one element per
+// round and cannot go below empty.
+func shrinkLoop(c *Ctx, f *ssa.Function, l *ssaLoop) (bool, string) {
+	ff := Facts(c, f)
+	for _, ins := range l.Header.Instrs {
+		phi, ok := ins.(*ssa.Phi)
+		if !ok {
+			break
+		}
+		switch phi.Type().Underlying().(type) {
+		case *types.Slice:
+		case *types.Basic:
+			if !isStringType(phi.Type()) {
+				continue
+			}
+		default:
+			continue
+		}
+		okAll, n := true, 0
+		for i, e := range phi.Edges {
+			pred := l.Header.Preds[i]
+			if !l.Blocks[pred] {
+				continue
+			}
+			n++
+			sl, isSl := e.(*ssa.Slice)
+			if !isSl || sl.X != ssa.Value(phi) || sl.High != nil || sl.Low == nil {
+				okAll = false
+				break
+			}
+			t := termOf(sl.Low)
+			if t.k < 1 || (t.base != nil && !nonNegAt(ff, sl.Block(), t.base)) {
+				okAll = false
+				break
+			}
+		}
+		if okAll && n > 0 {
+			name := phi.Comment
+			if name == "" {
+				name = phi.Name()
+			}
+			return true, name + " loses at least one element on every way round the loop"
+		}
+	}
+	return false, ""
+}
+
 // cuttingFunction: g returns (…, after, …, found, …) with found (result kf) a constant on every return, and found=true
 // only together with after = s[i+k:] for a string parameter s, k ≥ 1 and i known to be non-negative there.
 func cuttingFunction(c *Ctx, g *ssa.Function, kf int) (ps, ka int, ok bool) {
@@ -966,32 +1047,7 @@ func cuttingFunction(c *Ctx, g *ssa.Function, kf int) (ps, ka int, ok bool) {
 					continue
 				}
 				// the index is known to be non-negative where the function returns
-				nonNeg := false
-				for _, fa := range ff.At(b) {
-					bo, isB := fa.Cond.(*ssa.BinOp)
-					if !isB || bo.X != t.base {
-						continue
-					}
-					k, isC := constInt(bo.Y)
-					if !isC {
-						continue
-					}
-					rel, okR := relOf(bo.Op, fa.Val)
-					if !okR {
-						continue
-					}
-					if (rel == token.GEQ && k >= 0) || (rel == token.GTR && k >= -1) {
-						nonNeg = true
-					}
-					if rel == token.NEQ && k == -1 {
-						if call, isCall := t.base.(*ssa.Call); isCall {
-							if cl := call.Common().StaticCallee(); cl != nil && strings.HasPrefix(cl.String(), "strings.Index") {
-								nonNeg = true
-							}
-						}
-					}
-				}
-				if !nonNeg {
+				if !nonNegAt(ff, b, t.base) {
 					continue
 				}
 				pi := -1
